@@ -7,6 +7,6 @@ Init == \/ kind = "item" /\ item \in Items(Depth)
         \/ kind = "resource" /\ item \in {r \in Resources : r.key \in KeySubset \cup {"none"}}
 Next == UNCHANGED <<kind, item>>
 Spec == Init /\ [][Next]_<<kind, item>>
-Export == PrintT(ToJson(IF kind = "item" THEN [kind |-> kind, e |-> item.e, m |-> item.m, pos |-> item.pos]
+Export == PrintT(ToJson(IF kind = "item" THEN [kind |-> kind, e |-> item.e, m |-> item.m, pos |-> item.pos, lit |-> item.lit]
                         ELSE [kind |-> kind, rkind |-> item.kind, key |-> item.key, methods |-> SetSeq(item.methods)]))
 =============================================================================
